@@ -353,6 +353,18 @@ def run_battery_case(c):
 
     df = F.build(c["frame"])
     s = F.formula_string(c["formula"])
+    if c.get("handbuilt"):
+        # a hand-assembled structured spec whose parts disagree about the missing-data policy: whatever the outcome
+        # (the library refuses it), it is the same outcome in every interpreter
+        from formulaic import Formula, ModelSpec
+        from formulaic.model_spec import ModelSpecs
+
+        na_l, na_r = c["handbuilt"]
+        specs = ModelSpecs(lhs=ModelSpec(formula=Formula("0 + z"), na_action=na_l), rhs=ModelSpec(formula=Formula(s), na_action=na_r))
+        dropped = set()
+        mm = specs.get_model_matrix(df, drop_rows=dropped, context=fresh_ctx(len(df)))
+        d = {"parts": [digest(mm.lhs), digest(mm.rhs)], "dropped": sorted(int(v) for v in dropped)}
+        return hashlib.sha256(json.dumps(d, sort_keys=True).encode()).hexdigest()
     o = dict(output=["pandas", "numpy", "sparse"][c["opts"] % 3], ensure_full_rank=bool((c["opts"] // 3) % 2), na_action=["drop", "drop", "ignore"][(c["opts"] // 6) % 3])
     if c["cluster"]:
         o["cluster_by"] = "numerical_factors"
@@ -412,6 +424,12 @@ def extra_phase(tier, seed, stats):
     for fc in DUP_STATEFUL:
         for o in (0, 1, 3):
             cases.append({"frame": fixed_frame, "formula": fc, "opts": o, "twosided": False, "cluster": False})
+    # hand-assembled structured specs (parts agreeing / disagreeing on na_action) on a frame with nulls
+    nul_frame = json.loads(json.dumps(fixed_frame))
+    nul_frame["cols"]["x"]["values"][2] = None
+    nul_frame["cols"]["A"]["values"][5] = None
+    for pair in (["drop", "drop"], ["drop", "ignore"], ["ignore", "drop"], ["raise", "ignore"], ["ignore", "ignore"]):
+        cases.append({"frame": nul_frame, "formula": {"intercept": True, "terms": [[{"k": "num", "col": "x"}], [{"k": "cat", "col": "A"}]]}, "opts": 0, "twosided": False, "cluster": False, "handbuilt": pair})
     seeds = ["0", "1", "2", "3", "17", "4242", "65535", "random"]
     if tier == "thorough":
         seeds += [str(x) for x in (5, 7, 11, 13, 19, 23, 29, 31, 37, 41, 43, 47, 53, 59, 61, 67, 71, 73, 79, 83, 89, 97, 101, 1000003)]
